@@ -128,6 +128,15 @@ def jacobi_svd_contract(eng, scalar="d", symmetric_psd=False, pre=None, post=Non
             for j in range(i, k):
                 st.assume(sum((U[r][i].e * U[r][j].e for r in range(rows)), RV(0)) == (1 if i == j else 0))
                 st.assume(sum((V[r][i].e * V[r][j].e for r in range(cols)), RV(0)) == (1 if i == j else 0))
+        # square factors: rows are orthonormal too (left inverse = right inverse; stated to spare the solver the derivation)
+        if rows == k:
+            for i in range(rows):
+                for j in range(i, rows):
+                    st.assume(sum((U[i][c2].e * U[j][c2].e for c2 in range(k)), RV(0)) == (1 if i == j else 0))
+        if cols == k:
+            for i in range(cols):
+                for j in range(i, cols):
+                    st.assume(sum((V[i][c2].e * V[j][c2].e for c2 in range(k)), RV(0)) == (1 if i == j else 0))
         for i in range(k):
             st.assume(S[i].e >= 0)
             if i + 1 < k:
@@ -226,3 +235,27 @@ def least_squares_contract(eng):
         return None
     eng.overrides.append((lambda nm: nm in ("_ZN5romea4core12LeastSquaresIdE16estimateUsingSVDEv",
                                             "_ZN5romea4core12LeastSquaresIdE34estimateUsingCholeskyDecompositionEv"), estimate))
+
+
+# ----------------------------------------------------------------------------- determinant of a dynamic matrix
+
+def determinant_contract(eng, scalar="d"):
+    """Eigen::MatrixBase<MatrixX>::determinant() (PartialPivLU for dynamic sizes): returns the mathematical determinant"""
+    install_overrides(eng)
+    ty = ir.DOUBLE if scalar == "d" else ir.FLOAT
+
+    def det(eng, st, fr, ins, a):
+        M = _read(eng, st, a[0], ty)
+        n = len(M)
+        T = [[_term(eng, v) for v in row] for row in M]
+
+        def d(A):
+            k = len(A)
+            if k == 1:
+                return A[0][0]
+            return sum((((-1) ** j) * A[0][j] * d([row[:j] + row[j + 1:] for row in A[1:]]) for j in range(k)), RV(0))
+        if n > 4:
+            raise Inconclusive("determinant contract: size %d" % n)
+        eng.contracts_hit["determinant"] = eng.contracts_hit.get("determinant", 0) + 1
+        return SV(z3.simplify(d(T)))
+    eng.overrides.append((lambda nm: nm == "_ZNK5Eigen10MatrixBaseINS_6MatrixI%sLin1ELin1ELi0ELin1ELin1EEEE11determinantEv" % scalar, det))
